@@ -221,13 +221,14 @@ def R15(text, cfg=None):
         body = text[op:end]
         name = m.group(1)
         ty = (cfg or {}).get("loop_result_types", {}).get(name)
-        body2 = re.sub(r"\bbreak\s+([^;]+);", lambda b: "{ %s = %s; break; }" % (name, b.group(1).strip()), body)
+        body2 = re.sub(r"\bbreak\s+([^;,}\n]+?)\s*([;,])", lambda b: "{ %s = %s; break; }%s" % (name, b.group(1).strip(), "," if b.group(2) == "," else ""), body)
         e2 = end
         while e2 < len(text) and text[e2] in " \n\t":
             e2 += 1
         if e2 < len(text) and text[e2] == ";":
             e2 += 1
-        decl = "let mut %s%s;" % (name, (": " + ty) if ty else "")
+        init = (cfg or {}).get("loop_result_init", {}).get(name)
+        decl = "let mut %s%s%s;" % (name, (": " + ty) if ty else "", (" = " + init) if init else "")
         text = text[:m.start()] + decl + " loop " + body2 + text[e2:]
         inst.append("R15: `let %s = loop {..break v..}` -> assignment form" % name)
         m = rx.search(text, m.start() + len(decl) + 6)
@@ -255,4 +256,28 @@ def generic(pairs, tag):
     return rule
 
 
-RULES = {"R1": R1, "R2": R2, "R3": R3, "R4": R4, "R5": R5, "R7": R7, "R15": R15, "R16": R16}
+# R2b  for x in V {  (V: Vec<&T> named in cfg['byval']) -> index loop copying the element (a reference)
+def R2b(text, cfg=None):
+    inst_all = []
+    for e in (cfg or {}).get("byval", []):
+        pat = r"for\s+(" + ID + r")\s+in\s+" + re.escape(e) + r"\s*\{"
+        text, inst = _sub(pat, lambda m, e=e: "for idx_%s in 0..%s.len() { let %s = %s[idx_%s];" % (m.group(1), e, m.group(1), e, m.group(1)), text, "R2")
+        inst_all += inst
+    return text, inst_all
+
+
+# R18  for x in M.keys() {   (hash map key iteration) -> while loop over an arbitrary duplicate-free
+#      enumeration of the key set, index incremented before the body so that `continue` keeps its meaning
+def R18(text, cfg=None):
+    pat = r"for\s+(" + ID + r")\s+in\s+(" + PATH + r")\s*\.\s*keys\s*\(\s*\)\s*\{"
+    return _sub(pat, lambda m: "let keys_%s = vx_keys_snapshot(&%s); let mut idx_%s: usize = 0; while idx_%s < keys_%s.len() { let %s = keys_%s[idx_%s]; idx_%s += 1;" % (
+        m.group(1), m.group(2), m.group(1), m.group(1), m.group(1), m.group(1), m.group(1), m.group(1), m.group(1)), text, "R18")
+
+
+# R20  `if let Some(&v) = E {`  ->  `if let Some(v__r) = E { let v = *v__r;`   (ref patterns unsupported by Verus)
+def R20(text, cfg=None):
+    pat = r"if\s+let\s+Some\s*\(\s*&\s*(" + ID + r")\s*\)\s*=\s*([^{;]+?)\s*\{"
+    return _sub(pat, lambda m: "if let Some(%s__r) = %s { let %s = *%s__r;" % (m.group(1), m.group(2), m.group(1), m.group(1)), text, "R20")
+
+
+RULES = {"R2b": R2b, "R18": R18, "R20": R20, "R1": R1, "R2": R2, "R3": R3, "R4": R4, "R5": R5, "R7": R7, "R15": R15, "R16": R16}
